@@ -14,6 +14,7 @@ typedef std::map<std::string, std::string> Files;
 inline std::vector<std::pair<std::string, Files>> corpus_FD() {
   std::string lib = "DEFINE NOP AS _ := 0 END DEFINE DEFINE IF <V> THEN <P> ELSE <P> END AS #0 := 0; #1 := 1; #2 := $0; LOOP #2 DO #0 := 1; #1 := 0 END; LOOP #0 DO $1 END; LOOP #1 DO $2 END END DEFINE";
   return {
+      {"PROGRAM add IN a , b OUT r DO r := a ; LOOP b DO r := r + 1 END END PROGRAM twice IN a OUT r DO r := RUN add WITH a , a END END x0 := 2 ; LOOP x0 DO x1 := RUN twice WITH x0 END END", {}},
       {"PROGRAM f IN a DO x0 := a END PROGRAM g IN a DO x0 := a END x1 := 1", {}},
       {"x0 := 2 ; LOOP x0 DO x1 := x1 + 1 ; x2 := x1 END ; x3 := x2", {}},
       {"la : x0 := x0 + 1 ; IF x0 = 3 THEN GOTO lb ; GOTO la ; lb : x1 := x0", {}},
